@@ -44,10 +44,21 @@ DESC = {
     "rA": ("ref", "A", 0), "rU": ("ref", "U", 0),
     "ob": ("obj", "-", 0), "fl": ("flt", "-", 0), "b1": ("bad", "-", 0), "bT": ("bad", "-", 1),
     "eA0": ("eqv", "A", 0), "eA1": ("eqv", "A", 1), "L1": ("lit", "1", 0), "LT": ("lit", "T", 0),
+    # an uncacheable child (forward reference) among cacheable siblings; xF2: the same hint asked from a second module
+    "xF": ("mxF", "A", 0), "xF2": ("mxF", "A", 1), "xL": ("mxL", "A", 0), "xM": ("mxM", "A", 0),
+    "xD": ("mxD", "A", 0), "xN": ("mxN", "A", 0),
 }
+# mixed hints: (hint expression, the probe container around an instance I)
+MIX = {"mxF": ("tuple['A', int]", "(%s, 1)"), "mxL": ("tuple[int, 'A']", "(1, %s)"), "mxM": ("tuple[int, 'A', int]", "(1, %s, 1)"),
+       "mxD": ("dict['A', int]", "{%s: 1}"), "mxN": ("tuple['A', list[int]]", "(%s, [1])")}
+
+
+def asked_from_b(d):
+    """forward-reference descriptors with spelling 1 are asked from the second module (whose `A` is the model's E)."""
+    return d is not None and (DESC[d][0] in MIX or DESC[d][0] == "ref") and DESC[d][2] == 1
 # probe names per scope: mirrors ProbeNames in Door.tla
 PROBE_NAMES = {"repr": ["A"], "reprT": ["A"], "misc": ["A"], "conf": [], "reprD": ["D"], "fail": ["A", "U"],
-               "all": ["A", "D", "U"], "id": [], "idT": [], "idC": []}
+               "mix": ["A", "E"], "mixB": ["A"], "all": ["A", "D", "U", "E"], "id": [], "idT": [], "idC": []}
 
 # themes: what "a name bound to an object, later rebound to a distinct object with the same repr" is
 # made of.  `kind` words enter the violation keys.
@@ -119,6 +130,8 @@ def hint_expr(d, theme="class", container="list"):
     base = n
     if theme == "enum" and n == "A":
         base = f"Literal[{n}.X]"
+    if sh in MIX:
+        return MIX[sh][0]
     if sh == "cls":
         return base
     if sh == "list":
@@ -242,9 +255,16 @@ class _World:
             self.spy = _Spy()
         elif spy:
             self.spy = spy
-        self.gen = {"A": -1, "B": -1, "U": -1, "D": -1}
+        self.gen = {"A": -1, "B": -1, "U": -1, "D": -1, "E": 0}
         for n in ("A", "B", "D"):
             self.define(n)
+        # a second module binding the name "A" to a class of its own (the model's E); questions "asked from module b"
+        # are put by functions defined there, so that 'A' resolves against it
+        self.modb = types.ModuleType(name + "_b")
+        sys.modules[name + "_b"] = self.modb
+        self.gb = self.modb.__dict__
+        exec(compile(PRELUDE + "\nclass A: pass\n", "<c14 prelude b>", "exec", dont_inherit=True), self.gb)
+        self.g["E__0"] = self.gb["A"]
         self.funcs = []
         self.junk_kind = "plain"
         self.used = []          # hashable hint expressions used in id-keyed queries (amplifier material)
@@ -265,21 +285,23 @@ class _World:
     def hint(self, d):
         return self.ev(hint_expr(d, self.theme, self.container))
 
-    def probes(self):
+    def probes(self, d=None):
         out = []
         for n in self.probe_names:
             for g in range(self.gen[n] + 1):
                 i = inst_expr(self.theme, n, g)
                 out.append((f"bare:{n}:{g}", i))
                 out.append((f"list:{n}:{g}", CONTAINERS[self.container][1] % i))
+                if d is not None and DESC[d][0] in MIX:
+                    out.append((f"mix:{n}:{g}", MIX[DESC[d][0]][1] % i))
         out += [("none", "None"), ("int", "1"), ("true", "True"), ("float", "1.5")]
         return [(pid, self.ev(e)) for pid, e in out]
 
     # ---- queries: each returns {probe id | "_": outcome}
-    def vector(self, fn, viol):
+    def vector(self, fn, viol, d=None):
         from beartype import roar
         res = {}
-        for pid, obj in self.probes():
+        for pid, obj in self.probes(d):
             try:
                 r = fn(obj)
                 res[pid] = "F" if r is False else "T"
@@ -398,20 +420,22 @@ class _World:
         if k in ("bearable", "die"):
             h = self.hint(op["d"])
             conf = g["CONF"][op["conf"]]
+            ga = self.gb if asked_from_b(op["d"]) else g
             if k == "bearable":
-                return self.vector(lambda o: g["_bear"](o, h, conf), "BeartypeDoorHintViolation")
-            return self.vector(lambda o: g["_die"](o, h, conf), "BeartypeDoorHintViolation")
+                return self.vector(lambda o: ga["_bear"](o, h, conf), "BeartypeDoorHintViolation", op["d"])
+            return self.vector(lambda o: ga["_die"](o, h, conf), "BeartypeDoorHintViolation", op["d"])
         if k == "decorate":
             name = f"f{len(self.funcs) + 1}"
             src = (f"@beartype(conf=CONF[{op['conf']!r}])\ndef {name}(x: {hint_expr(op['d'], self.theme, self.container)}):\n"
                    f"    return None")
-            r = self.scalar(lambda: self.run(src))
+            ga = self.gb if asked_from_b(op["d"]) else g
+            r = self.scalar(lambda: exec(compile(src, "<c14 history>", "exec", dont_inherit=True), ga))
             if r["_"] == "ok":
-                self.funcs.append(g[name])
+                self.funcs.append((ga[name], op["d"]))
             return r
         if k == "call":
-            f = self.funcs[op["i"] - 1]
-            return self.vector(f, "BeartypeCallHintParamViolation")
+            f, fd = self.funcs[op["i"] - 1]
+            return self.vector(f, "BeartypeCallHintParamViolation", fd)
         if k == "subhint":
             self.note_used(op["a"], op["b"])
             ea, eb = (hint_expr(op[x], self.theme, self.container) for x in "ab")
@@ -494,10 +518,12 @@ def render(job):
             lines.append("clear_caches()        # by re-executing '@beartype class K9Clear: pass'")
         elif k in ("bearable", "die"):
             fn = "is_bearable" if k == "bearable" else "die_if_unbearable"
-            lines.append(f"[{fn}(p, {hint_expr(op['d'], theme, cont)}, conf={op['conf']}) for p in PROBES]")
+            lines.append(f"[{fn}(p, {hint_expr(op['d'], theme, cont)}, conf={op['conf']}) for p in PROBES]"
+                         + ("        # asked from module b, which has its own class A" if asked_from_b(op["d"]) else ""))
         elif k == "decorate":
             nf += 1
-            lines.append(f"@beartype(conf={op['conf']})\ndef f{nf}(x: {hint_expr(op['d'], theme, cont)}): ...")
+            lines.append(f"@beartype(conf={op['conf']})\ndef f{nf}(x: {hint_expr(op['d'], theme, cont)}): ..."
+                         + ("        # defined in module b, which has its own class A" if asked_from_b(op["d"]) else ""))
         elif k == "call":
             lines.append(f"[f{op['i']}(p) for p in PROBES]")
         elif k == "subhint":
@@ -675,9 +701,10 @@ def _ans_model(op, rec, gen, scope):
     k = op["op"]
     if k in ("bearable", "die", "call"):
         ids = []
+        mix = op.get("d") is not None and DESC[op["d"]][0] in MIX
         for n in PROBE_NAMES[scope]:
             for g in range(gen[n] + 1):
-                ids += [f"bare:{n}:{g}", f"list:{n}:{g}"]
+                ids += [f"bare:{n}:{g}", f"list:{n}:{g}"] + ([f"mix:{n}:{g}"] if mix else [])
         ids += ["none", "int", "true", "float"]
         if rec["exc"] != "none":
             return {i: rec["exc"] for i in ids}
@@ -726,6 +753,9 @@ class History:
         self.scope, self.origin = scope, origin
         self.ops = [s[0] for s in steps]
         self.last = [s[1]["last"] for s in steps]
+        for o, l in zip(self.ops, self.last):
+            if o["op"] == "call":
+                o["d"] = l["a"]          # the descriptor of the callable's hint (decides which probes are built)
         self.gen = [dict(s[1]["gen"]) for s in steps]
         # the model's function numbering counts successful decorations: identical in the child
         self.needs_reuse = [i for i, l in enumerate(self.last) if l["stale"]]
@@ -737,7 +767,8 @@ class History:
 
 def _paths_from_graph(g, max_paths, rnd):
     """paths from Init covering every edge; the quick tier replays a seeded sample of them in which the paths on
-    which the faithful model deviates (foreign de-duplication, stale id hit, answer /= Fresh) come first."""
+    which the faithful model deviates (foreign de-duplication, stale id hit, answer /= Fresh) come first, then those that
+    ask an ==-equal question again after the heap changed or from elsewhere."""
     from verifkit import tlc
     paths = tlc.edge_cover_paths(g, max_len=64)
     total = len(paths)
@@ -748,12 +779,31 @@ def _paths_from_graph(g, max_paths, rnd):
                 if l["swap"] or l["stale"] or (l["judged"] and l["ret"] != l["fresh"]):
                     return True
             return False
+        def revisits(p):
+            # the pattern every memoisation defect needs: a question, then the heap changes under the tables (a name is
+            # rebound, the caches are cleared) or the question comes from elsewhere (other spelling / module), then an
+            # ==-equal question again
+            seen = []
+            for (_s, a, t) in p:
+                o = _op_of(a)
+                d = o.get("d") or (g.nodes[t]["last"]["a"] if o["op"] == "call" else None)
+                if o["op"] in ("redefine", "clear"):
+                    seen = [(e, sp, True) for (e, sp, _c) in seen]
+                elif d in DESC:
+                    e, sp = DESC[d][:2], DESC[d][2]
+                    if any(e0 == e and (changed or sp0 != sp) for (e0, sp0, changed) in seen):
+                        return True
+                    seen.append((e, sp, False))
+            return False
         dev = [p for p in paths if deviates(p)]
-        rest = [p for p in paths if not deviates(p)]
+        rev = [p for p in paths if not deviates(p) and revisits(p)]
+        rest = [p for p in paths if not deviates(p) and not revisits(p)]
         rnd.shuffle(dev)
+        rnd.shuffle(rev)
         rnd.shuffle(rest)
         dev = dev[:max_paths // 2]
-        paths = dev + rest[:max_paths - len(dev)]
+        rev = rev[:max(max_paths // 3, max_paths - len(dev) - len(rest))]
+        paths = dev + rev + rest[:max(0, max_paths - len(dev) - len(rev))]
     return paths, total
 
 
@@ -998,7 +1048,8 @@ def run(rep, tier, seed):
         # ------------------------------------------------------------------ R1
         D = 4 if quick else 5
         runs = []
-        for scope, mo in (("repr", D), ("reprT", D + 1), ("reprD", D + 1), ("idT", D - 1), ("idC", D), ("fail", D), ("conf", D), ("misc", D - 1)):
+        for scope, mo in (("repr", D), ("reprT", D + 1), ("reprD", D + 1), ("idT", D - 1), ("idC", D), ("fail", D), ("conf", D), ("misc", D - 1),
+                          ("mix", D), ("mixB", D)):
             runs.append((f"intended {scope}", (d, [], scope, mo, PROPS, {"workers": 4}), True, None))
         runs += [
             ("faithful repr (F4a)", (d, FAITHFUL, "repr", D, ["ReturnFresh"], {"workers": 2}), False, ["ReturnFresh"]),
@@ -1015,10 +1066,17 @@ def run(rep, tier, seed):
             ("mutant cache_uncacheable", (d, ["cache_uncacheable"], "fail", D, ["ReturnFresh"], {"workers": 2}), False, None),
             ("mutant cache_fwd_exc", (d, ["cache_uncacheable", "cache_fwd_exc"], "fail", D, ["NoStickyFailure"], {"workers": 2}), False,
              ["NoStickyFailure"]),
+            # is_check_expr_cacheable = the last child's instead of the conjunction: tuple['A', int] asked from two modules,
+            # dict['A', int] asked again after A is redefined
+            ("mutant cacheable_last_child (two modules)", (d, ["cacheable_last_child"], "mix", D, ["ReturnFresh"], {"workers": 2}), False,
+             ["ReturnFresh"]),
+            ("mutant cacheable_last_child (redefinition)", (d, ["cacheable_last_child"], "mixB", D, ["ReturnFresh"], {"workers": 2}), False,
+             ["ReturnFresh"]),
         ]
         # graphs of the faithful model for the edge replay (no property: the whole graph is wanted)
         G = 3 if quick else 4
-        graph_scopes = [("repr", G), ("reprT", G + 1), ("reprD", G + 1), ("idT", G), ("idC", G), ("fail", G), ("conf", G), ("misc", G)]
+        graph_scopes = [("repr", G), ("reprT", G + 1), ("reprD", G + 1), ("idT", G), ("idC", G), ("fail", G), ("conf", G), ("misc", G),
+                        ("mix", G), ("mixB", G)]
         for scope, mo in graph_scopes:
             runs.append((f"graph {scope}", (d, FAITHFUL, scope, mo, ["TypeOK"],
                                             {"workers": 2, "dump_dot": os.path.join(d, f"g_{scope}")}), True, None))
@@ -1027,7 +1085,9 @@ def run(rep, tier, seed):
         targets = []
         for (label, args, expect_ok, must), res in zip(runs, results):
             _check_tlc(rep, res, label, expect_ok, must)
-            if label.startswith("faithful") and res.violated:
+            # the counter-examples of the faithful model are what 0.23.0 does; those of the wrong designs are the histories
+            # on which an implementation with that design would answer wrongly: both are replayed first
+            if label.startswith(("faithful", "mutant")) and res.violated:
                 steps = [(_op_of(a), st) for a, st in res.error_trace[1:]]
                 targets.append(History(args[2], steps, f"TLC counter-example: {label}"))
         rep.note(f"R1 done in {time.time() - t0:.0f}s: {len(runs)} TLC runs, {len(targets)} counter-examples to replay first")
@@ -1122,17 +1182,28 @@ def _replay_all(rep, pool, hists, quick, rnd):
     # Enum members / validator closures of different modules print alike -- at most one history per such theme and batch
     nb = (len(items) + B - 1) // B
     batches = [[] for _ in range(nb)]
-    special = [i for i in range(len(items)) if items[i][1] in ("enum", "validator")]
-    plain = [i for i in range(len(items)) if items[i][1] not in ("enum", "validator")]
+    # ... and a stringified forward reference is the same hint in every module: one such history per batch
+    def bkey(i):
+        h, theme, cont = items[i]
+        if theme in ("enum", "validator"):
+            return (theme, cont)
+        for o in h.ops:
+            for f in ("d", "a", "b"):
+                if o.get(f) in DESC and (DESC[o[f]][0] == "ref" or DESC[o[f]][0] in MIX):
+                    return ("forward reference",)
+        return None
+    bkeys = [bkey(i) for i in range(len(items))]
+    special = [i for i in range(len(items)) if bkeys[i] is not None]
+    plain = [i for i in range(len(items)) if bkeys[i] is None]
     ptr = 0
     for i in special:
-        key = (items[i][1], items[i][2])
+        key = bkeys[i]
         for off in range(len(batches) + 1):
             if off == len(batches):
                 batches.append([i])
                 break
             b = batches[(ptr + off) % len(batches)]
-            if len(b) < B and all((items[j][1], items[j][2]) != key for j in b):
+            if len(b) < B and all(bkeys[j] != key for j in b):
                 b.append(i)
                 ptr = (ptr + off + 1) % len(batches)
                 break
